@@ -119,7 +119,8 @@ def valid_templates(tier="quick"):
     st = [Stmt("dd", ex=["dd.in"], copy=True), Stmt("x", ex=["s"]),
           Stmt("out", ex=["in"], oo=["dd"], dyndep="dd", extra_reads=["x"], extra_outs=["eo"]),
           Stmt("use", ex=["in2"], oo=["dd", "out"], dyndep="dd", extra_reads=["eo"])]
-    ops, nb = common_ops([{"op": "rm", "path": "eo", "label": "rm eo"}, {"op": "rm", "path": "dd", "label": "rm dd"}])
+    ops, nb = common_ops([{"op": "rm", "path": "eo", "label": "rm eo"}, {"op": "rm", "path": "dd", "label": "rm dd"},
+                          {"op": "duplog", "path": "x", "content": "400", "label": "400 more records of x in the log (long history)"}])
     T.append(_mk("implicit_output", [Variant("v0", st)], {"dd.in": dd3}, ops, [nb], depth, ["produced", "implicit-output"]))
 
     # D4: one dyndep file shared by two statements
